@@ -137,6 +137,11 @@ func init() {
 			fr.i.ps.out = append(fr.i.ps.out, strElems(args[1])...)
 			return tuple{strLen(args[1]), iface{}}
 		},
+		"(*os.File).Write": func(fr *frame, args []value) value {
+			b, _ := args[1].([]value)
+			fr.i.ps.out = append(fr.i.ps.out, b...)
+			return tuple{len(b), iface{}}
+		},
 		"(*os.File).Close": func(fr *frame, args []value) value { return iface{} },
 		"math/rand.Seed": func(fr *frame, args []value) value {
 			// the seed given to the generator is part of what a run depends on
@@ -332,6 +337,20 @@ func init() {
 func extNop(fr *frame, args []value) value        { return nil }
 func extDiscardNil(fr *frame, args []value) value { return nil }
 
+// sinkFile: the *os.File the cmd harness stubs hand out as output file (nil if none).
+func (i *interpreter) sinkFile() *value {
+	for pkg := range i.harnessPkgs {
+		if g, ok := pkg.Members["zzSinkFile"].(*ssa.Global); ok {
+			if cell := i.globals[g]; cell != nil {
+				if p, ok := (*cell).(*value); ok {
+					return p
+				}
+			}
+		}
+	}
+	return nil
+}
+
 // fmt.Print* to stdout: output is discarded; returns (n, nil error).
 func extDiscard(fr *frame, args []value) value { return tuple{0, iface{}} }
 
@@ -342,8 +361,14 @@ func extLogFatal(fr *frame, args []value) value { panic(exitPanic(1)) }
 func extFprint(fr *frame, args []value) value {
 	w := args[0].(iface)
 	name := fr.fn.Name()
+	toSink := false
 	if w.t != nil && strings.Contains(w.t.String(), "os.File") {
-		return tuple{0, iface{}}
+		// the harness global zzSinkFile is the in-memory sink handed out by the cmd
+		// harness stubs; anything else (os.Stdout, os.Stderr) is discarded
+		if p, ok := w.v.(*value); !ok || p == nil || p != fr.i.sinkFile() {
+			return tuple{0, iface{}}
+		}
+		toSink = true
 	}
 	var s string
 	switch name {
@@ -353,6 +378,12 @@ func extFprint(fr *frame, args []value) value {
 		s = fr.i.sprint(fr, args[1].([]value), true)
 	default:
 		s = fr.i.sprint(fr, args[1].([]value), false)
+	}
+	if toSink {
+		for i := 0; i < len(s); i++ {
+			fr.i.ps.out = append(fr.i.ps.out, s[i])
+		}
+		return tuple{len(s), iface{}}
 	}
 	if w.t == nil {
 		fr.i.ps.nilDeref()
@@ -764,7 +795,103 @@ func (ps *pathState) randFloat() value {
 	r := ps.newInput(fmt.Sprintf("randf%d", ps.nrand), "randf", sortReal)
 	ps.nrand++
 	ps.addPC(ps.ts.And(ps.ts.RCmp(OpRLe, ps.ts.RealF(0), r), ps.ts.RCmp(OpRLt, r, ps.ts.RealF(1))))
+	if ps.probMode {
+		// continuous uniform draw on [0,1): its weight is the length of the
+		// interval hull of its projection (see pathWeight)
+		ps.randRanges = append(ps.randRanges, realDraw{})
+		ps.randVars = append(ps.randVars, r)
+	}
 	return mkval(types.Float64, r)
+}
+
+// realDraw marks, among the ranges of the random draws of a path, a draw of
+// rand.Float64: uniform on [0,1), modelled as a real (the 2^-53 grid of the
+// real generator is not modelled).
+type realDraw struct{}
+
+// realHull: bounds lo <= inf, sup <= hi of the projection of the path
+// condition on the real draw r, found by bisection to 2^-44, rounded to the
+// simplest rational nearby and then certified by two solver queries.
+func (ps *pathState) realHull(r *Term) (lo, hi *big.Rat, why string) {
+	s := ps.w.solver
+	ts := ps.ts
+	chk := func(t *Term) string {
+		res := s.Check(t)
+		s.Pop()
+		return res
+	}
+	bound := func(upper bool) (*big.Rat, string) {
+		a, b := big.NewRat(0, 1), big.NewRat(1, 1) // the bound lies in [a,b]
+		two := big.NewRat(2, 1)
+		for i := 0; i < 44; i++ {
+			mid := new(big.Rat).Add(a, b)
+			mid.Quo(mid, two)
+			var q *Term
+			if upper {
+				q = ts.RCmp(OpRLt, ts.RealRat(mid), r) // some solution above mid?
+			} else {
+				q = ts.RCmp(OpRLt, r, ts.RealRat(mid))
+			}
+			switch chk(q) {
+			case "sat":
+				if upper {
+					a = mid
+				} else {
+					b = mid
+				}
+			case "unsat":
+				if upper {
+					b = mid
+				} else {
+					a = mid
+				}
+			default:
+				return nil, "solver unknown while bounding a real draw"
+			}
+		}
+		cand := simplestBetween(a, b)
+		var q *Term
+		if upper {
+			q = ts.RCmp(OpRLt, ts.RealRat(cand), r)
+		} else {
+			q = ts.RCmp(OpRLt, r, ts.RealRat(cand))
+		}
+		if chk(q) != "unsat" {
+			// keep the sound side of the bisection interval
+			if upper {
+				return b, ""
+			}
+			return a, ""
+		}
+		return cand, ""
+	}
+	hi, why = bound(true)
+	if why != "" {
+		return nil, nil, why
+	}
+	lo, why = bound(false)
+	return lo, hi, why
+}
+
+// simplestBetween: the rational with the smallest denominator in [a,b] (Stern-Brocot).
+func simplestBetween(a, b *big.Rat) *big.Rat {
+	if a.Cmp(b) >= 0 {
+		return new(big.Rat).Set(a)
+	}
+	fl := new(big.Int).Div(a.Num(), a.Denom()) // a >= 0 here
+	flr := new(big.Rat).SetInt(fl)
+	if flr.Cmp(a) == 0 {
+		return flr
+	}
+	next := new(big.Rat).Add(flr, big.NewRat(1, 1))
+	if next.Cmp(b) <= 0 {
+		return next
+	}
+	// a = fl + fa, b = fl + fb with 0 < fa < fb < 1: recurse on the reciprocals
+	fa := new(big.Rat).Sub(a, flr)
+	fb := new(big.Rat).Sub(b, flr)
+	inner := simplestBetween(new(big.Rat).Inv(fb), new(big.Rat).Inv(fa))
+	return new(big.Rat).Add(flr, new(big.Rat).Inv(inner))
 }
 
 func (ps *pathState) randExp() value {
@@ -1126,6 +1253,17 @@ func (ps *pathState) pathWeight() (*big.Rat, string) {
 	vol := big.NewRat(1, 1)
 	var inProj []*Term
 	for i, r := range ps.randVars {
+		if _, isReal := ps.randRanges[i].(realDraw); isReal {
+			lo, hi, why := ps.realHull(r)
+			if why != "" {
+				return nil, why
+			}
+			if hi.Cmp(lo) <= 0 {
+				return nil, "real draw confined to a set of measure zero"
+			}
+			vol.Mul(vol, new(big.Rat).Sub(hi, lo))
+			continue
+		}
 		kv, ok := ps.randRanges[i].(int)
 		if !ok {
 			if k64, ok2 := ps.randRanges[i].(int64); ok2 {
